@@ -7,7 +7,28 @@ import (
 	"fmt"
 	"sort"
 	"strings"
+
+	"github.com/iancoleman/strcase"
 )
+
+// ShapeOf classifies an identifier's spelling.
+func ShapeOf(n string) string {
+	switch {
+	case strings.HasSuffix(n, "ID"):
+		return "acronym"
+	case strings.Contains(n, "_") && strings.ToLower(n) == n:
+		return "snake"
+	case strings.Contains(n, "_"):
+		return "underscore"
+	case strings.ToUpper(n) == n:
+		return "allcaps"
+	case strings.ContainsAny(n, "0123456789"):
+		return "digit"
+	case n[:1] == strings.ToLower(n[:1]):
+		return "lowercamel"
+	}
+	return "other"
+}
 
 // Kind of a field.
 type Kind int
@@ -325,6 +346,33 @@ func (p *Program) Features() []string {
 	}
 	for _, k := range p.Packets {
 		walk(k, false)
+	}
+	// identifier shapes: names that are not fixpoints of the generators' case conversions
+	canonical := func(n string) bool {
+		return strcase.ToCamel(n) == n && strcase.ToCamel(strcase.ToSnake(n)) == n && strcase.ToCamel(strcase.ToLowerCamel(n)) == n
+	}
+	var walkNames func(k *Packet, top bool)
+	walkNames = func(k *Packet, top bool) {
+		if !canonical(k.Name) {
+			if top {
+				set["shape:packet"] = true
+				set["shape:packet:"+ShapeOf(k.Name)] = true
+			} else {
+				set["shape:inline"] = true
+			}
+		}
+		for _, f := range k.Fields {
+			if !canonical(f.Name) && f.Kind != KInline && !(f.Kind == KObj && f.Name == f.Ref) {
+				set["shape:field"] = true
+				set["shape:field:"+ShapeOf(f.Name)] = true
+			}
+			if f.Kind == KInline {
+				walkNames(f.Inline, false)
+			}
+		}
+	}
+	for _, k := range p.Packets {
+		walkNames(k, true)
 	}
 	// shapes of the reference graph that the emitted self-tests are sensitive to
 	referenced := map[string]bool{}
